@@ -59,6 +59,8 @@ pub struct Slot {
     /// Set by a fault that asks the *reader* to present different authentication data.
     pub read_aad: Option<Option<Vec<u8>>>,
     pub from_recaps: bool,
+    /// Index of the event that created this slot (for slot-aware minimisation).
+    pub born_event: usize,
 }
 
 pub enum Msg {
